@@ -196,6 +196,9 @@ pub trait Front {
     fn tx_outcome(&self, rng: &mut DryRng, join: bool) -> VerifTx;
     fn take_downlinks(&mut self) -> Vec<(u8, Vec<u8>)>;
     fn set_class_c(&mut self, on: bool);
+    /// Installs a session on the live device where the front-end offers that (`nb_device::Device::set_session`);
+    /// false = this front-end has no such call (async: sessions are only accepted by the constructor).
+    fn set_session(&mut self, session: &Value) -> Result<bool, String>;
 }
 
 /// `Uplink::overflowed` is transient by design (cleared before it is read again): masked.
@@ -461,6 +464,9 @@ impl<const P: u8, const G: i8, const N: usize> Front for AsyncFront<P, G, N> {
             self.dev.disable_class_c()
         }
     }
+    fn set_session(&mut self, _session: &Value) -> Result<bool, String> {
+        Ok(false)
+    }
 }
 
 // ---------------------------------------------------------------- non-blocking front-end
@@ -724,6 +730,12 @@ impl<const P: u8, const G: i8> Front for NbFront<P, G> {
         v
     }
     fn set_class_c(&mut self, _on: bool) {}
+    fn set_session(&mut self, session: &Value) -> Result<bool, String> {
+        let s: Session = serde_json::from_value(session.clone()).map_err(|e| e.to_string())?;
+        self.env.begin_call();
+        catch(|| self.dev.set_session(s)).map_err(|p| format!("panic in set_session: {p}"))?;
+        Ok(true)
+    }
 }
 
 // ---------------------------------------------------------------- construction
